@@ -874,6 +874,10 @@ class Data(BaseCartesianData):
         if component_id in self._components:
             self._components.pop(component_id)
             self._removed_derived_that_depend_on(component_id)
+            # Masks that were computed from this component may be cached (see
+            # update_components): they are dropped before anyone is told
+            # about the change
+            clear_all_caches()
             if self.hub:
                 msg = DataRemoveComponentMessage(self, component_id)
                 self.hub.broadcast(msg)
@@ -1445,6 +1449,11 @@ class Data(BaseCartesianData):
                 if isinstance(component, DerivedComponent):
                     component.link.replace_ids(old, new)
 
+        if changed:
+            # Cached masks may have been computed through the old ComponentID
+            # (see update_components)
+            clear_all_caches()
+
         if changed and self.hub is not None:
 
             # remove old component and broadcast the change
@@ -1702,9 +1711,6 @@ class Data(BaseCartesianData):
         # Update shape
         self._shape = data._shape
 
-        if ndim_changed:
-            self._update_pixel_components(self.ndim)
-
         # Update components that exist in both. Note that we can't just loop
         # over old_labels & new_labels since we need to make sure we preserve
         # the order of the components, and sets don't preserve order.
@@ -1715,6 +1721,16 @@ class Data(BaseCartesianData):
                 comp_old = self.get_component(cid)
                 comp_new = data.get_component(new_by_label[cname])
                 comp_old._data = comp_new._data
+
+        # The values have changed: adding components below broadcasts
+        # messages, and masks that were cached while components were removed
+        # above (e.g. by a viewer that redraws when the set of components
+        # changes) were computed from the previous values, so cached masks
+        # are dropped here already (see update_components)
+        clear_all_caches()
+
+        if ndim_changed:
+            self._update_pixel_components(self.ndim)
 
         # Add components that didn't exist in original one. As above, we try
         # and preserve the order of components as much as possible.
